@@ -93,6 +93,13 @@ class Gen:
         self.types.append({"name": "TDoc", "kind": "named",
                            "fields": [{"name": "f0", "ty": "i64", "key": "documented key", "doc": "the first field"},
                                       {"name": "f1", "ty": "Option<String>", "key": "f1"}]})
+        # boundary spellings: the empty string as a key (a valid JSON member name), and fields called like the generated code's own
+        # bindings (`value`, `json`), not in last position
+        self.types.append({"name": "TBoundary", "kind": "named",
+                           "fields": [{"name": "value", "ty": "i64", "key": "value"}, {"name": "f1", "ty": "Option<String>", "key": ""},
+                                      {"name": "json", "ty": "bool", "key": "json"}, {"name": "f3", "ty": "String", "key": "f3"}]})
+        self.types.append({"name": "TBoundaryMap", "kind": "mapped",
+                           "fields": [{"name": "value", "ty": "i64", "key": ""}, {"name": "f1", "ty": "String", "key": "value"}]})
         self.types.append({"name": "TDocEnum", "kind": "enum",
                            "variants": [{"name": "V0", "key": "in progress", "doc": "work has started"}, {"name": "V1", "key": "V1"},
                                         {"name": "V2", "key": "failed!", "doc": "it did not work"}]})
